@@ -115,6 +115,15 @@ func (c *common) begin(w http.ResponseWriter, r *http.Request) (*Request, string
 		q.Res = "fault:http503"
 		http.Error(w, "Service Unavailable (injected)", 503)
 		return q, kind, false
+	case "http500-empty", "http401-empty":
+		// an error status without any body text
+		q.Res = "fault:" + kind
+		code := 500
+		if kind == "http401-empty" {
+			code = 401
+		}
+		w.WriteHeader(code)
+		return q, kind, false
 	case "http403":
 		q.Res = "fault:http403"
 		http.Error(w, "Forbidden (injected)", 403)
